@@ -44,6 +44,18 @@ type effEngine struct {
 	memo        map[ssa.Value]int
 	memoWhy     map[ssa.Value]string
 	active      map[ssa.Value]bool
+	// qmemo caches verdicts within one top-level query (they may rest on the coinductive
+	// "a value being decided is fresh" assumption; every combinator is a conjunction, so a false
+	// verdict of an assumed value propagates to the top and the cached verdicts are discarded
+	// with the query). Without it, cells with many `x = append(x, …)` stores are re-traversed
+	// once per load: exponential.
+	qmemo  map[ssa.Value]effVerdict
+	qdepth int
+}
+
+type effVerdict struct {
+	ok  bool
+	why string
 }
 
 func newEffEngine(p *Program, scope map[*ssa.Function]bool, roots map[*ssa.Function]bool) *effEngine {
@@ -180,16 +192,27 @@ func (e *effEngine) Fresh(v ssa.Value) (bool, string) {
 	if e.active[v] {
 		return true, "cycle"
 	}
+	if r, ok := e.qmemo[v]; ok {
+		return r.ok, r.why
+	}
+	if e.qmemo == nil {
+		e.qmemo = map[ssa.Value]effVerdict{}
+	}
 	e.active[v] = true
+	e.qdepth++
 	ok, why := e.fresh(v)
+	e.qdepth--
 	delete(e.active, v)
-	if len(e.active) == 0 {
+	e.qmemo[v] = effVerdict{ok, why}
+	if e.qdepth == 0 {
+		// top-level query: the verdict rests on no assumption
 		if ok {
 			e.memo[v] = 2
 		} else {
 			e.memo[v] = 3
 			e.memoWhy[v] = why
 		}
+		e.qmemo = nil
 	}
 	return ok, why
 }
@@ -486,10 +509,30 @@ func fieldName(fa *ssa.FieldAddr) string {
 }
 
 func (e *effEngine) cellFresh(a ssa.Value, seen map[ssa.Value]bool) (bool, string) {
-	if seen[a] {
+	if seen[a] || e.active[a] {
 		return true, ""
 	}
 	seen[a] = true
+	if r, ok := e.qmemo[a]; ok {
+		return r.ok, r.why
+	}
+	if e.qmemo == nil {
+		e.qmemo = map[ssa.Value]effVerdict{}
+	}
+	e.active[a] = true
+	e.qdepth++
+	ok, why := e.cellFresh1(a, seen)
+	e.qdepth--
+	delete(e.active, a)
+	if e.qdepth == 0 {
+		e.qmemo = nil
+	} else {
+		e.qmemo[a] = effVerdict{ok, why}
+	}
+	return ok, why
+}
+
+func (e *effEngine) cellFresh1(a ssa.Value, seen map[ssa.Value]bool) (bool, string) {
 	refs := a.Referrers()
 	if refs == nil {
 		return false, "cell"
